@@ -225,6 +225,35 @@ def run(ctx):
     if n_sel < 1:
         raise AnalysisError("no reader-union selection site found")
 
+    ctx.rule("C08.R9", "two named types match when their unqualified names are equal or the reader's aliases contain the writer's full name or its unqualified name", floor=1)
+    msf = p.func("_read_py:match_schemas")
+    W_, R_ = msf.pos_params[0], msf.pos_params[1]
+    from sa.pathsum import summaries as _summ
+
+    want_alias = {
+        f"{W_}['name'].rsplit('.', 1)[-1] == {R_}['name'].rsplit('.', 1)[-1]",
+        f"{W_}['name'] in {R_}.get('aliases', [])",
+        f"{W_}['name'].rsplit('.', 1)[-1] in {R_}.get('aliases', [])",
+    }
+    found = None
+    for s_ in _summ(cfg_of(msf), max_paths=3000):
+        if s_.kind != "return" or s_.text != R_:
+            continue
+        for fct in s_.facts:
+            if "'aliases'" in fct or ".rsplit('.', 1)[-1] ==" in fct:
+                tree_ = ast.parse(fct, mode="eval").body
+                parts = {norm(v) for v in (tree_.values if isinstance(tree_, ast.BoolOp) and isinstance(tree_.op, ast.Or) else [tree_])}
+                # symmetric spelling of the equality
+                parts = {x if x in want_alias else (" == ".join(reversed(x.split(" == "))) if " == " in x and " == ".join(reversed(x.split(" == "))) in want_alias else x) for x in parts}
+                found = parts if found is None else (found | parts)
+    if found is not None and not (found & want_alias):
+        found = None
+    if found is None:
+        ctx.unrecognised("C08.R9", "match_schemas: named types", msf.where(), "the acceptance condition of two named types (names / aliases) was not found on a path returning the reader schema")
+    else:
+        missing = sorted(want_alias - found)
+        ctx.check("C08.R9", "match_schemas: named types match by unqualified name, writer full name in reader aliases, or writer unqualified name in reader aliases", not missing, msf.where(), f"match_schemas: accepts when {sorted(found)}; missing {missing}", "a reader that renamed a type and lists the old (unqualified or full) name as an alias must still resolve: schema evolution by aliases is part of the resolution rules")
+
     ctx.rule("C08.R8", "match_schemas decides every combination of {inline definition, reference by name} on the writer and the reader side by comparing like with like (names with names, definitions with definitions)", floor=4)
     ms = p.func("_read_py:match_schemas")
     wS, rS = ms.pos_params[0], ms.pos_params[1]
